@@ -32,7 +32,7 @@ def removes_inputs(spec):
 
 
 def replay_source(spec, c_src, prev):
-    src = REPLAY_PRELUDE + passes.IMPORTS + passes.APPLY_SRC + c_src + "\nimport itertools\n" + f"spec={spec!r}\nbefore=circ.snapshot(c)\nbad=[]\n"
+    src = REPLAY_PRELUDE + passes.IMPORTS + passes.APPLY_SRC + EDIT_SRC + c_src + "\nimport itertools\n" + f"spec={spec!r}\nbefore=circ.snapshot(c)\nbad=[]\n"
     if prev is not None:
         src += (circ.circ_src(prev, "prev") + "\nobj=eval(spec)\n"
                 "run=lambda x: Transformer.apply_transformers(x, obj) if (isinstance(obj, list) or hasattr(obj, '__next__')) else obj.transform(x)\n"
@@ -51,8 +51,25 @@ def replay_source(spec, c_src, prev):
             "        a=dict(zip(c.inputs,x))\n"
             "        ea=ref_concrete(circ.netlist_of(c), a); eb=ref_concrete(circ.netlist_of(r), {k:v for k,v in a.items() if k in r.inputs})\n"
             "        if [ea[o] for o in c.outputs]!=[eb[o] for o in r.outputs]: bad.append(('differs', a)); break\n"
+            "if not bad:\n"
+            "    try:\n        edit_result(r)\n    except Exception as e:\n        bad.append(('editing the result raised', type(e).__name__, str(e)))\n"
+            "    if circ.snapshot(c)!=before: bad.append('argument follows later edits of the result')\n"
             "print(bad)\nsys.exit(1 if bad else 0)\n")
     return src
+
+
+EDIT_SRC = """
+def edit_result(r):
+    labs = list(r.gates)
+    if not labs:
+        return
+    r.mark_as_output(labs[0])
+    if r.outputs:
+        r.rename_gate(r.outputs[0], 'renamed_by_the_caller_of_the_pass')
+    if r.inputs:
+        r.rename_gate(r.inputs[-1], 'input_renamed_by_the_caller_of_the_pass')
+"""
+exec(EDIT_SRC)  # noqa: S102
 
 
 def check_pass(p, name, c, spec, prev=None):
@@ -109,6 +126,15 @@ def check_pass(p, name, c, spec, prev=None):
         if res == "sat":
             assign = {lab: symeval.model_bool(m, v) for lab, v in zs.items()}
             problems.append(f"truth table differs on {assign}")
+    if not problems:
+        # "a new circuit": what the caller does to the result afterwards (in-place edits through public calls)
+        # must not reach the argument
+        try:
+            edit_result(r)
+        except Exception as e:  # noqa: BLE001
+            problems.append(f"editing the result raised {type(e).__name__}: {e}")
+        if circ.snapshot(c) != before:
+            problems.append("argument circuit follows later edits of the result (shared state)")
     if problems:
         p.violation(
             f"pass:{spec}:{problems[0].split(':')[0][:40]}",
